@@ -35,6 +35,7 @@ type srvOpt struct {
 	BadLen      bool // may send a frame whose header announces more bytes than ever arrive
 	Delay       time.Duration // the server thinks this long before every action (slow server)
 	SplitStall  time.Duration // TCP: every answer but the first of a connection arrives in two segments with this pause between them (a stall inside a frame)
+	MuteAfter   int           // >0: after this many answers (all connections together) the server never answers again
 	DropFirst   int           // the first n queries arriving on every connection are lost (UDP loss): only a resend gets an answer
 }
 
@@ -56,6 +57,7 @@ type tOpt struct {
 	RewindQid bool // tdc kinds: every call first rewinds the wire-ID counter to StartQid (a reachable state after 65536 allocations): IDs of queries still in flight must be skipped
 	Withdraw  bool // tdc kinds: a caller may reserve and withdraw instead of exchanging
 	IdleTimeout time.Duration
+	FreezeStage1 bool // the callers before StageTwo only build the starting state: they run on the default schedule (vs.Freeze), exploration starts with the staged callers
 	KeepReleased bool // the buffer pool does not overwrite released buffers in this scenario (see fk.PoisonOnRelease)
 }
 
@@ -104,6 +106,7 @@ type tsys struct {
 	xmits    []xmit
 	nonce    uint32
 	stop     bool
+	answeredTotal int
 	hold     bool // the server actors do not look at their connections (answers are held back)
 	closeLeft int
 	dials    int
@@ -253,7 +256,7 @@ func (s *tsys) serve(cn *tConn) {
 				cn.pending = append(cn.pending, w)
 			}
 		}
-		if so.Mute {
+		if so.Mute || (so.MuteAfter > 0 && s.answeredTotal >= so.MuteAfter) {
 			cn.pending = nil
 			continue
 		}
@@ -341,6 +344,7 @@ func (s *tsys) serve(cn *tConn) {
 				rec.recID = s.deliver(cn, ans)
 			}
 			cn.answers = append(cn.answers, rec)
+			s.answeredTotal++
 			w.answered++
 			if a.kind == "answer+close" {
 				s.srvClose(cn)
@@ -462,6 +466,9 @@ func (s *tsys) dialDns(ctx context.Context) (DnsConn, error) {
 func (s *tsys) run() {
 	o := s.opt
 	fk.PoisonOnRelease = !o.KeepReleased
+	if o.FreezeStage1 && o.StageTwo > 0 {
+		vs.Freeze()
+	}
 	if o.Seq == 0 {
 		o.Seq = 1
 		s.opt.Seq = 1
@@ -502,6 +509,9 @@ func (s *tsys) run() {
 			if ci >= o.Callers-o.StageTwo {
 				stage1.Wait()
 				vs.Sleep(time.Millisecond) // let the read loops digest what the server did
+				if o.FreezeStage1 {
+					vs.Unfreeze()
+				}
 			} else {
 				defer stage1.Done()
 			}
